@@ -132,6 +132,15 @@ class Sched:
         self.ids[kind] += 1
         return self.ids[kind]
 
+    def stable_id(self, kind, obj):
+        """A number for a foreign object that is the same in every execution of the same schedule (id() is not:
+        exploration compares labels across executions)."""
+        refs = self.__dict__.setdefault('_obj_refs', {})
+        ent = refs.get(id(obj))
+        if ent is None or ent[0] is not obj:
+            ent = refs[id(obj)] = (obj, self.new_id(kind))
+        return ent[1]
+
     # ---- threads
     def spawn(self, target, name='t'):
         t = VThread(len(self.threads), name)
